@@ -1,5 +1,6 @@
 import SaphyrModel.Api
 import SaphyrModel.Proofs.Run
+import SaphyrModel.Proofs.History
 /-! # C17 — Pull, peek and push interfaces tell the same story (Api model)
 
 Laws of `peek` / `next_event` on the model of the parser's driver (`SaphyrModel/Api.lean`), for
@@ -78,5 +79,31 @@ theorem next_sets_end_flag (a : Api) (v : Ev) (a' : Api) (h : a.next = (some (.o
         simp only [hp, Prod.mk.injEq, Option.some.injEq, Res.ok.injEq] at h
         obtain ⟨h1, h2⟩ := h
         subst h1; subst h2; simp [hc]
+
+/-- **Every interleaving of `peek` and `next` tells the story of plain iteration**: for every parser
+    state reachable from a fresh parser (`Api.Ok`), every history `h` of calls, cut at the first
+    error, returns through its `next` calls a prefix of the events of plain iteration. The bound
+    `h.length ≤ fuel` only says that iteration is given at least as many steps as the history has. -/
+theorem history_is_iteration (h : List Call) (a : Api) (ha : a.Ok) (fuel : Nat) (hf : h.length ≤ fuel) :
+    nextOks (runCalls h a []) <+: (iterate fuel a []).1 :=
+  nexts_prefix_of_iteration h a ha fuel hf
+
+/-- a fresh parser satisfies the hypothesis, and so does every state reached by `peek`/`next` -/
+theorem fresh_ok (p : PState) : (Api.init p).Ok := by intro h; rfl
+theorem ok_preserved (a : Api) (ha : a.Ok) : (a.peek).2.Ok ∧ (a.next).2.Ok := ⟨Api.peek_ok ha, Api.next_ok ha⟩
+
+/-- `peek` returns what the following `next` returns and consumes nothing (general form: whatever
+    is cached) -/
+theorem peek_shows_next (a : Api) (ha : a.Ok) (v : Ev) (a1 : Api) (h : a.peek = (some (.ok v), a1)) :
+    a1.next = a.next ∧ (a.next).1 = some (.ok v) := Api.next_after_peek ha h
+
+/-- once `next` has returned `StreamEnd`, `next` and `peek` return nothing -/
+theorem after_stream_end (a : Api) (v : Ev) (a' : Api) (h : a.next = (some (.ok v), a')) (hv : v.1 = .streamEnd) :
+    a'.next = (none, a') ∧ a'.peek = (none, a') := by
+  obtain ⟨he, hc⟩ := next_sets_end_flag a v a' h
+  exact fused a' hc (by rw [he, hv]; rfl)
+
+/-- the history theorem is not vacuous: a history that interleaves both calls -/
+example : ([Call.peek, .next, .peek, .peek, .next] : List Call).length ≤ 5 := by decide
 
 end SaphyrModel.C17
